@@ -159,6 +159,45 @@ func decodeObject(raw json.RawMessage) (*unstructured.Unstructured, error) {
 	return &unstructured.Unstructured{Object: m}, nil
 }
 
+// celOracle runs every distinct CEL rule of the probe list alone, through the real NewCELProbe,
+// with a message of its own (so that the oracle does not depend on the messages of the scenario).
+func celOracle(probes []corev1alpha1.ObjectSetProbe, run func(p probing.Prober) (bool, []string)) []probeCEL {
+	out := []probeCEL{}
+	seen := map[string]bool{}
+	for _, osp := range probes {
+		for _, p := range osp.Probes {
+			if p.CEL == nil || seen[p.CEL.Rule] {
+				continue
+			}
+			seen[p.CEL.Rule] = true
+			c := probeCEL{Rule: p.CEL.Rule, Outcome: "none"}
+			const oracleMsg = "\x00verif-oracle"
+			cp, err := probing.NewCELProbe(p.CEL.Rule, oracleMsg)
+			switch {
+			case err == nil:
+				c.Class = "ok"
+				ok, msgs := run(cp)
+				switch {
+				case ok && len(msgs) == 0:
+					c.Outcome = "true"
+				case !ok && len(msgs) == 1 && msgs[0] == oracleMsg:
+					c.Outcome = "false"
+				case !ok && len(msgs) == 1 && strings.HasPrefix(msgs[0], "CEL program failed: "):
+					c.Outcome = "error"
+				default:
+					c.Outcome = "unknown"
+				}
+			case errors.Is(err, probing.ErrCELInvalidEvaluationType):
+				c.Class = "not-bool"
+			default:
+				c.Class = "compile"
+			}
+			out = append(out, c)
+		}
+	}
+	return out
+}
+
 func init() {
 	register("probe", func(raw json.RawMessage) (any, error) {
 		var sc probeScenario
@@ -184,39 +223,7 @@ func init() {
 			return ok, msgs
 		}
 
-		// CEL oracle: every distinct rule alone, through the real NewCELProbe.
-		seen := map[string]bool{}
-		for _, osp := range sc.Probes {
-			for _, p := range osp.Probes {
-				if p.CEL == nil || seen[p.CEL.Rule] {
-					continue
-				}
-				seen[p.CEL.Rule] = true
-				c := probeCEL{Rule: p.CEL.Rule, Outcome: "none"}
-				const oracleMsg = "\x00verif-oracle"
-				cp, err := probing.NewCELProbe(p.CEL.Rule, oracleMsg)
-				switch {
-				case err == nil:
-					c.Class = "ok"
-					ok, msgs := run(cp)
-					switch {
-					case ok && len(msgs) == 0:
-						c.Outcome = "true"
-					case !ok && len(msgs) == 1 && msgs[0] == oracleMsg:
-						c.Outcome = "false"
-					case !ok && len(msgs) == 1 && strings.HasPrefix(msgs[0], "CEL program failed: "):
-						c.Outcome = "error"
-					default:
-						c.Outcome = "unknown"
-					}
-				case errors.Is(err, probing.ErrCELInvalidEvaluationType):
-					c.Class = "not-bool"
-				default:
-					c.Class = "compile"
-				}
-				obs.CEL = append(obs.CEL, c)
-			}
-		}
+		obs.CEL = celOracle(sc.Probes, run)
 
 		// every ObjectSetProbe alone: the body of the loop of Parse (parse.go:19-33) through the
 		// exported ParseProbes and ParseSelector, i.e. without the And around the whole list.
